@@ -47,10 +47,10 @@ type pRec struct {
 }
 
 type protoVec struct {
-	Shape []pField           `json:"shape"`
-	Val   pVal               `json:"val"`
-	Wire  []pRec             `json:"wire"`
-	Impl  []pRec             `json:"impl"`
+	Shape []pField            `json:"shape"`
+	Val   pVal                `json:"val"`
+	Wire  []pRec              `json:"wire"`
+	Impl  []pRec              `json:"impl"`
 	Lib   map[string][]pField `json:"lib"`
 }
 
@@ -64,6 +64,18 @@ var subShapes = map[string][]pField{
 }
 
 func isMsgKind(k string) bool { _, ok := subShapes[k]; return ok }
+
+// arrLen: byte-array kinds "arr" (4 bytes), "arr7", "arr15", "arr16"
+func arrLen(k string) int {
+	if k == "arr" {
+		return 4
+	}
+	if strings.HasPrefix(k, "arr") {
+		n, _ := strconv.Atoi(k[3:])
+		return n
+	}
+	return 0
+}
 
 func numOf(shape []pField, i int) int {
 	if shape[i].N != 0 {
@@ -141,12 +153,20 @@ func (l lift) scalar(kind string, id int) any {
 			return []byte{}
 		}
 		return []byte(nonZeroStr[l.idx(id, len(nonZeroStr))])
-	case "arr":
-		var a [4]byte
-		if id != 0 {
-			a = [4]byte{byte(id - 1), 0, byte(l.salt), byte(id)}
+	}
+	if n := arrLen(kind); n > 0 {
+		// byte arrays: a single non-zero byte, at the end (id 1), at the start (id 2) or at a salted position
+		a := reflect.New(reflect.ArrayOf(n, reflect.TypeOf(byte(0)))).Elem()
+		switch {
+		case id == 0:
+		case id == 1:
+			a.Index(n - 1 - (l.salt % 2 * (n / 2))).SetUint(uint64(1 + l.salt))
+		case id == 2:
+			a.Index(0).SetUint(0x80)
+		default:
+			a.Index((id*5 + l.salt) % n).SetUint(uint64(id))
 		}
-		return a
+		return a.Interface()
 	}
 	panic("unknown kind " + kind)
 }
@@ -175,12 +195,15 @@ func canonScalar(kind string, v any) string {
 	case string:
 		return "s" + hex.EncodeToString([]byte(x))
 	case []byte:
-		if kind == "arr" && len(x) == 0 {
-			return "b00000000"
+		if n := arrLen(kind); n > 0 && len(x) == 0 {
+			return "b" + strings.Repeat("00", n)
 		}
 		return "b" + hex.EncodeToString(x)
-	case [4]byte:
-		return "b" + hex.EncodeToString(x[:])
+	}
+	if rv := reflect.ValueOf(v); rv.Kind() == reflect.Array {
+		b := make([]byte, rv.Len())
+		reflect.Copy(reflect.ValueOf(b), rv)
+		return "b" + hex.EncodeToString(b)
 	}
 	panic(fmt.Sprintf("canonScalar %T", v))
 }
@@ -216,8 +239,9 @@ func scalarType(kind string) reflect.Type {
 		return reflect.TypeOf("")
 	case "byt":
 		return reflect.TypeOf([]byte(nil))
-	case "arr":
-		return reflect.TypeOf([4]byte{})
+	}
+	if n := arrLen(kind); n > 0 {
+		return reflect.ArrayOf(n, reflect.TypeOf(byte(0)))
 	}
 	panic("scalarType " + kind)
 }
@@ -239,10 +263,10 @@ func tagWire(kind string) string {
 		return "fixed32"
 	case "x64", "dbl":
 		return "fixed64"
-	case "str", "byt", "arr":
+	case "str", "byt":
 		return "bytes"
 	}
-	if isMsgKind(kind) {
+	if isMsgKind(kind) || arrLen(kind) > 0 {
 		return "bytes"
 	}
 	return "varint"
@@ -499,8 +523,11 @@ func (l lift) scalarBytes(kind string, id int) []byte {
 		return []byte(v)
 	case []byte:
 		return v
-	case [4]byte:
-		return v[:]
+	}
+	if rv := reflect.ValueOf(l.scalar(kind, id)); rv.Kind() == reflect.Array {
+		b := make([]byte, rv.Len())
+		reflect.Copy(reflect.ValueOf(b), rv)
+		return b
 	}
 	panic("scalarBytes " + kind)
 }
@@ -580,7 +607,10 @@ func protoTypeOf(kind string) descriptorpb.FieldDescriptorProto_Type {
 		return descriptorpb.FieldDescriptorProto_TYPE_DOUBLE
 	case "str":
 		return descriptorpb.FieldDescriptorProto_TYPE_STRING
-	case "byt", "arr":
+	case "byt":
+		return descriptorpb.FieldDescriptorProto_TYPE_BYTES
+	}
+	if arrLen(kind) > 0 {
 		return descriptorpb.FieldDescriptorProto_TYPE_BYTES
 	}
 	return descriptorpb.FieldDescriptorProto_TYPE_MESSAGE
@@ -672,9 +702,10 @@ func refScalar(kind string, v protoreflect.Value) string {
 		return "s" + hex.EncodeToString([]byte(v.String()))
 	case "byt":
 		return "b" + hex.EncodeToString(v.Bytes())
-	case "arr":
+	}
+	if n := arrLen(kind); n > 0 {
 		if len(v.Bytes()) == 0 {
-			return "b00000000"
+			return "b" + strings.Repeat("00", n)
 		}
 		return "b" + hex.EncodeToString(v.Bytes())
 	}
